@@ -448,10 +448,11 @@ def Name.bits : Name → Nat
 def pow2F64 (k : Int) : Nat := (k + 1023).toNat * 2 ^ 52
 
 /-- `e8m0mxfp2bitstore` (bitstore_helpers.py:178-188): NaN → 0xff, else the index of `f` in
-    `[float(2 ** x) for x in range(-127, 128)]` (`list.index` compares with `==`), else ValueError. -/
+    `[float(2 ** x) for x in range(-127, 128)]`, else ValueError.  `list.index` compares with `==`; every list
+    element is a non-zero finite float and `f` is not NaN here, so `==` holds exactly when the patterns are equal. -/
 def e8m0Enc (f : Nat) : Except Err Nat :=
   if isNaN64 f then .ok 255 else
-  match (List.range 255).find? (fun (i : Nat) => f64Eq (pow2F64 ((i : Int) - 127)) f) with
+  match (List.range 255).find? (fun (i : Nat) => pow2F64 ((i : Int) - 127) == f) with
   | some i => .ok i
   | none => .error .value
 
